@@ -944,10 +944,10 @@ def canon_cqm_result(b, groups, model_line):
 def covers_exactly(cs, S):
     """positive integer coefficients whose subset sums are exactly 0..S (sorted prefix rule: every coefficient is at most one
     more than the sum of the smaller ones, and the total is S) — the definition, independent of model and code"""
-    if any(c <= 0 for c in cs):
+    if any(c < 0 for c in cs):
         return False
     reach = 0
-    for c in sorted(cs):
+    for c in sorted(c for c in cs if c):      # a zero coefficient (an idle bit) represents nothing new
         if c > reach + 1:
             return False
         reach += c
@@ -982,7 +982,7 @@ def slack_boundary_cases(ctx, r, lines, checks):
         ok = covers_exactly(cs, S) and all(b.get_linear(u) == float(u[1]) for u in b.variables)
         if not ok:
             ctx.fail('property', 'generators.binary_encoding', cls, f'binary_encoding("i", {S}) ({near}): coefficients {sorted(cs)[:2]}…{sorted(cs)[-2:]} (sum {sum(cs)}, min {min(cs)}) do not represent exactly 0..{S}',
-                     repro=HDR + f'from dimod.generators import binary_encoding\nS = {S}\nb = binary_encoding("i", S)\ncs = sorted(u[1] for u in b.variables)\nreach = 0\nfor c in cs:\n    assert 0 < c <= reach + 1, (c, reach)\n    reach += c\nassert reach == S, (reach - S)\n')
+                     repro=HDR + f'from dimod.generators import binary_encoding\nS = {S}\nb = binary_encoding("i", S)\ncs = sorted(u[1] for u in b.variables)\nreach = 0\nfor c in cs:\n    assert 0 <= c <= reach + 1, (c, reach)\n    reach += c\nassert reach == S, (reach - S)\n')
         lines.append(f'benc {lab("i")} {S}')
         checks.append(('binary_encoding vs Pen.binaryEncoding', cls, 'ok ' + ','.join(f'{lab(u)}={u[1]}' for u in b.variables), None, not ok))
         # (b) BQM slack method: lb = 2 <= a + (S+5) b <= S + 2  ->  tightened range S; the violating a=1, b=0 needs slack S + 1
